@@ -1062,3 +1062,34 @@ Proof.
   pose proof (Hoff q n Hq Hd) as H1. rewrite Hb in Hd. pose proof (Hoff p m Hp Hd) as H2.
   destruct q, p; cbn in *. subst. reflexivity.
 Qed.
+
+(* Arena::dup: the block is a fresh one-shot block (aligned, disjoint from everything live), large enough for the data and
+   the terminator, holds the data followed by zero bytes *)
+Theorem arena_dup_sound mok a data nt : inv a -> 0 < Z.of_nat (length data) < 2 ^ 63 ->
+  let r := arena_dup mok a data nt in
+  inv (snd r) /\
+  match fst r with
+  | Some (p, bytes) => exists asz, In (p, asz) (live (snd r)) /\ Forall (disjoint (p, asz)) (regions a) /\ a_off p mod 8 = 0 /\
+                         Z.of_nat (length bytes) = asz /\ Z.of_nat (length data) + (if nt then 1 else 0) <= asz /\
+                         firstn (length data) bytes = data /\ Forall (fun b => b = 0) (skipn (length data) bytes)
+  | None => live (snd r) = live a
+  end.
+Proof.
+  intros I Hlen. unfold arena_dup.
+  set (size := Z.of_nat (length data)) in *.
+  destruct (Z.eqb_spec size 0); [lia|].
+  set (asz := ((size + (if nt then 1 else 0) + 7) / 8) * 8).
+  assert (Hasz : size + (if nt then 1 else 0) <= asz < size + (if nt then 1 else 0) + 8 /\ asz mod 8 = 0).
+  { unfold asz. split; [|apply Z.mod_mul; lia].
+    pose proof (Z.div_mod (size + (if nt then 1 else 0) + 7) 8 ltac:(lia)).
+    pose proof (Z.mod_pos_bound (size + (if nt then 1 else 0) + 7) 8 ltac:(lia)). lia. }
+  destruct Hasz as [Ha1 Ha2].
+  assert (Hb : 0 < asz <= SIZE_MAX) by (unfold SIZE_MAX; change (2 ^ 64) with (2 * 2 ^ 63); destruct nt; lia).
+  pose proof (alloc_oneshot_sound mok a asz I Hb Ha2) as Hp. unfold alloc_post in Hp.
+  destruct (alloc_oneshot mok a asz) as [[p|] a']; cbn [fst snd] in *; destruct Hp as [I' Hp]; (split; [exact I'|]).
+  - destruct Hp as (Hal & _ & Hdis & Hlive & _). exists asz. split; [rewrite Hlive; left; reflexivity|]. split; [exact Hdis|]. split; [exact Hal|].
+    split; [rewrite app_length, repeat_length; unfold size in *; destruct nt; lia|]. split; [lia|]. split.
+    + rewrite firstn_app, firstn_all, Nat.sub_diag. cbn. apply app_nil_r.
+    + rewrite skipn_app, skipn_all, Nat.sub_diag. cbn. apply Forall_forall. intros x Hx. apply repeat_spec in Hx. exact Hx.
+  - apply Hp.
+Qed.
